@@ -146,3 +146,23 @@ claim(
     "structural / provenance rules over the partition and reduction code",
     "DESIGN.md section 3, C20",
 )
+
+
+# ---- clauses added after the seeded rounds (appended to the claims above) ----
+def _more(pid, text):
+    CHECKS[pid]["text"] = CHECKS[pid]["text"].rstrip() + " " + text
+
+
+_more("C01", "Also decided: the beam strain operators of every Euler-Bernoulli / Timoshenko element class and beam dimension, interpreted on a straight symbolic element, annihilate the rigid-body motions and reproduce (up to one sign per row) the axial strain, twist, curvatures and shear angles of every representable polynomial field (R1.7); the strain/stress component extraction and the per-element reduction (R16.4, R16.7).")
+_more("C02", "Also decided: beam strain operators annihilate exactly the rigid-body motions and no row vanishes or mixes planes (R2.7); the 2-D thickness rescale of K, C, M is guarded by a condition the simulation's model class can satisfy (R2.8).")
+_more("C03", "Also decided: the looked-up linear index of the CSR map is row*ncol+col by provenance (R3.5).")
+_more("C04", "Also decided: the bordered Lagrange-multiplier system, interpreted with recording sparse-matrix stubs: every multiplier row, its symmetric column and its right-hand side carry one common scale factor (R4.7).")
+_more("C08", "Also decided: every face row of the face tables is a valid face with an outward normal (prism padding included); node index spaces of the element group (local rows of coord/nodes versus global ids of connect, tags and node lists) are never mixed, by a flow-insensitive interprocedural type inference over the class (R8.6).")
+_more("C09", "Also decided: the nodal-array branch matches intensities to nodes by identity for an unsorted node list larger than the element (exact numpy semantics of argsort/searchsorted/broadcast_to in the interpreter); Beam.add_lineLoad integrates every unknown with its own intensity against its own row of the beam N matrix through the Lagrange/Hermitian split (R9.7).")
+_more("C11", "Also decided: _Parameter.__set__ raises Need_Update on every completing path (must-pass-through; only isinstance(instance, Updatable) may guard it) and __get__ hands out a copy; the rotated laws use the Get_Pmat / Apply_Pmat identities of R10.2-R10.3.")
+_more("C14", "Also decided: in multi-field simulations with one memo flag per problem, every statement replacing the solution field of one problem is followed on every path by lowering the memo flag of each other problem (R14.6, obligation transferred through private helpers to their call sites).")
+_more("C15", "Also decided: Save_Iter records the current-mesh index attribute and Set_Iter switches mesh whenever the recorded index differs from that same attribute (R15.7).")
+_more("C16", "Also decided: the per-element strain/stress reduction extracts at every Gauss point before averaging (R16.7); Calc_Reaction, interpreted for every AlgoType member, is K u (+ C v parabolic, + C v + M a for every member of Get_Hyperbolic_Types()) (R16.8).")
+_more("C17", "Also decided: under HistoryDamage the bounded damage is stored as the simulation's damage, under BoundConstrain the lower bound is the current damage; no model function writes the driving-energy array it receives in place (interprocedural alias analysis).")
+_more("C18", "Also decided: the fixed-rule strain-path quadrature of TimeQuadratureStressTensor, interpreted with symbolic weights for several rules and coefK values, averages dW and the s-weighted d2W over states on the segment between the two end states only (R18.6).")
+_more("C19", "Also decided: the plane-stress condensation is the Schur complement of the zz row/column of a general non-symmetric tangent (rational-function identity, R19.5); hardening / back-stress / stress functions in the local residual and Jacobian are evaluated at slots of (committed state + increment), R and dR at the same expression (R19.6).")
